@@ -192,6 +192,11 @@ def tlc_mc(ctx, name, module, consts, invariants=(), properties=(), view=None, c
            'expect': expect, 'invariants': list(invariants) + list(properties), 'dir': d}
     m = RE_STATES.findall(out)
     res['generated'], res['distinct'] = (int(m[-1][0]), int(m[-1][1])) if m else (0, 0)
+    if not m:
+        # a run stopped by its timeout has only progress lines ("1,234 states generated (...), 567 distinct states found")
+        pm = re.findall(r'([\d,]+) states generated \([^)]*\), ([\d,]+) distinct states found', out)
+        if pm:
+            res['generated'], res['distinct'] = int(pm[-1][0].replace(',', '')), int(pm[-1][1].replace(',', ''))
     viol = re.search(r'Error: Invariant (\w+) is violated|Error: Action property (\w+) is violated|Error: Temporal properties were violated|is violated', out)
     if 'Parsing or semantic analysis failed' in out or 'Error: TLC threw' in out or 'TLC encountered an unexpected exception' in out \
             or ('Error:' in out and not viol and 'Error: The behavior up to' not in out):
